@@ -15,6 +15,7 @@ import (
 	chaindeep "golang.org/x/telemetry/internal/verifgen/deep/er/path.with.dots/chain"
 	chainv2 "golang.org/x/telemetry/internal/verifgen/ex.ample-pkg/v2"
 	chainplain "golang.org/x/telemetry/internal/verifgen/plain"
+	chainyaml "golang.org/x/telemetry/internal/verifgen/yaml.v3"
 	"golang.org/x/telemetry/internal/verifref"
 	"golang.org/x/telemetry/internal/verifrt"
 )
@@ -26,6 +27,7 @@ var c15Callees = func() []func(func()) {
 	cs = append(cs, chainv2.Callees()...)
 	cs = append(cs, chaindeep.Callees()...)
 	cs = append(cs, chainplain.Callees()...)
+	cs = append(cs, chainyaml.Callees()...)
 	cs = append(cs, func(next func()) { next() }, c15Local, c15T{}.m)
 	// frames of another package inlined between frames of this one (and
 	// between frames of a third): package X real, package Y inlined, package X real
